@@ -229,6 +229,31 @@ ENUM_ROLES = {
 }
 
 
+# Non-public structs the rule tables name, re-identified by shape when renamed.
+def _all_usize(a, n):
+    return a["kind"] == "Struct" and "Restricted" in str(a.get("vis")) and len(a["variants"]) == 1 and \
+        len(a["variants"][0]["fields"]) == n and all(_fty(f) == "usize" for f in a["variants"][0]["fields"])
+
+
+STRUCT_ROLES = {
+    "desert_core::deserializer::ResolvedInputRegion": lambda a: _all_usize(a, 4),
+    "desert_core::deserializer::InputRegion": lambda a: _all_usize(a, 3),
+}
+
+
+def discover_structs(crate):
+    have = {a["path"] for a in crate.items["adts"]}
+    out = {}
+    for want, pred in STRUCT_ROLES.items():
+        if want in have or not want.startswith(crate.name + "::"):
+            continue
+        cands = [a["path"] for a in crate.items["adts"] if a["path"].startswith(crate.name + "::") and pred(a)
+                 and a["path"] not in STRUCT_ROLES]
+        if len(cands) == 1:
+            out[cands[0]] = want
+    return out
+
+
 def discover_enums(crate):
     """-> (type renames {old path: canonical path}, name renames {old variant/field name: canonical name})"""
     have = {a["path"]: a for a in crate.items["adts"]}
@@ -320,6 +345,8 @@ def canonicalise_moves(crate):
     mv = discover_moves(crate)
     etypes, enames = discover_enums(crate)
     mv.update(etypes)
+    for k, v in discover_structs(crate).items():
+        mv.setdefault(k, v)
     crate.adt_moves = mv
     crate.enum_renames = enames
     if enames:
